@@ -1,6 +1,7 @@
 package c18
 
 import (
+	"math/big"
 	"testing"
 
 	"github.com/OffchainLabs/go-bitfield"
@@ -214,12 +215,14 @@ var unsignedKinds = []unsignedKind{
 		case v.Fulu != nil:
 			dropBlobs(seed, &v.Fulu.Blobs, &v.Fulu.KZGProofs)
 		}
+		setBlockValues(seed, &v)
 		return v
 	}},
 	{Name: "VersionedProposal/blinded", Duty: core.DutyProposer, Versions: blindedVersions, gen: func(t *testing.T, seed int64, ver eth2spec.DataVersion) core.UnsignedData {
 		var v core.VersionedProposal
 		v.Version, v.Blinded = ver, true
 		fuzzVersion(t, seed, &v, ver, boolp(true))
+		setBlockValues(seed, &v)
 		return v
 	}},
 	{Name: "VersionedAggregatedAttestation", Duty: core.DutyAggregator, Versions: allVersions, gen: func(t *testing.T, seed int64, ver eth2spec.DataVersion) core.UnsignedData {
@@ -267,4 +270,19 @@ func pubkey(seed int64) core.PubKey {
 	}
 
 	return pk
+}
+
+// setBlockValues populates the optional produceBlockV3 block values (not part of the SSZ encoding) as
+// a beacon node's answer does: multi-limb big integers, so that both the pointer and the limb
+// slice are reachable mutable memory (seeded change C18-r6). One seed in four leaves them nil.
+func setBlockValues(seed int64, v *core.VersionedProposal) {
+	if seed&3 == 3 {
+		return
+	}
+	mk := func(x int64) *big.Int {
+		b := new(big.Int).SetUint64(uint64(x)*0x9e3779b97f4a7c15 | 1)
+		return b.Lsh(b, 70).Add(b, big.NewInt(x&0xffff))
+	}
+	v.ConsensusValue = mk(seed + 11)
+	v.ExecutionValue = mk(seed + 17)
 }
